@@ -8,6 +8,21 @@ HERE = os.path.dirname(os.path.dirname(os.path.abspath(__file__)))
 
 # id -> (technique, level text, level note, design ref)
 CHECKS = {
+    "C05": (
+        "exhaustive enumeration of all geometries of all 9 types over a small time x frequency lattice x all position names on the real bounds/conversion/features/anchor functions against a min/max walk over raw coordinates",
+        "63 134 (quick) / 1 418 725 (thorough) lattice geometries incl. unsorted and zero-extent boxes, all 3-point rings, rectangles/L-shapes in every vertex order, holes, 1-3 member multi-geometries; per geometry 25 calls: "
+        "bounds exact, shapely kind and every coordinate preserved in order, features (duration, low/high frequency, bandwidth, num_segments; one per term) from the bounds model, 9 anchor formulas, centroid / point_on_surface inside the bounds, invalid names rejected.",
+        "Lattice coordinates only (dyadic: comparisons exact). Self-intersecting rings excluded. Centroid/point-on-surface only required to lie inside the bounds.",
+        "DESIGN.md 4/C05",
+    ),
+    "C11": (
+        "explicit-state BFS over chains of real buffer_geometry calls from 74 pooled geometries x 25 buffer vectors (depth 2 quick / 3 thorough), pairwise monotonicity for every ordered pair of buffer vectors, closed forms for the three exact types",
+        "Every pooled geometry (9 types, incl. ones touching t=0, f=0, f=MAX, holes, multi-geometries) x every buffer vector in {0, 2^-7, 1/2, 4, 1e9} x {0, 1, 125, 1e4, 1e7}; results of regular buffers are states again and are re-buffered with componentwise larger vectors. "
+        "On every state: valid result (re-validated by the C03 model), containment of the original, bounds extended by at least the buffers (clipped), supersets for larger buffers (all pairs), exact closed form for TimeStamp/TimeInterval/BoundingBox, negative buffers rejected. "
+        "The literal clauses fail for the shapely-backed types in eight narrow, bounded ways (F11a-c); they are listed as open known findings keyed by oracle, kind, pooled geometry ids / chain depth and a numeric bound on the excess, so anything else or anything larger is a VIOLATION.",
+        "Results of zero buffers (slivers below double resolution) and of domain-filling buffers are judged as results but not fed to a further buffering. Containment tolerance 1e-9 in buffer units.",
+        "DESIGN.md 4/C11",
+    ),
     "C17": (
         "explicit-state BFS (depth 2 quick / 3 thorough) over sequences of real crop_dim / extend_dim / adjust_dim_width / crop_dim_width / extend_dim_width calls with canonical state hashing, lock-step integer lattice model",
         "From every initial axis (first x step incl. 0.01, 1/3, 10/3 x length x step attribute or estimated x 1-D/2-D layout) every enabled operation is applied (all crop bound pairs on/between coordinates x 4 closedness settings, "
